@@ -55,6 +55,8 @@ CLAIMS["C13"] = dict(
    technique="contract-based deductive verification: byte-level postconditions on setters/getters, loop invariants, ghost map-iteration set, lemma functions composed from contracts, SMT (z3/cvc5)")
 
 NA = {
+ "C12": "not applicable to contract-based verification of the repository's Go code: how 'a and b or c', parentheses, keyword case and whitespace group is decided by ANTLR's ATN interpreter (AdaptivePredict) running the serialized grammar embedded in zitiql_parser.go; the generated Go functions are a table-driven shell around it, so no precondition/postcondition on a repository function can state 'the tree for this text is that tree', and the ANTLR tool needed to regenerate or analyse the grammar is not available here. (The listener half - each connective node evaluates as its connective - is contract-shaped and is part of the C10 sweep's dispatch contracts.) Observed while reading: 'a and b or c' groups as 'a and (b or c)'; recorded in DESIGN.md section 7 for the maintainers.",
+ "C17": "not applicable: equality of the whole database across close/rename/reopen, what concurrent transactions observe during the swap, and restore listeners firing after the swap are file-system and schedule properties of bbolt and the OS (os.Rename, file locks, goroutines); contracts over single calls of repository functions cannot express them, and the only contract-shaped fragment (DbImpl.GetTimelineId's flag logic) does not decide the property.",
 }
 
 PENDING = "the contracts that carry this property are not built yet in this round (no claim is made)"
